@@ -62,6 +62,14 @@ impl Decoder for FrameCodec {
         use bytes::Buf;
         use serde_amqp::de::Deserializer;
 
+        // The length-delimited codec hands over whatever the length field announced, which
+        // can be less than the rest of the frame header
+        if src.len() < 4 {
+            return Err(Error::Io(std::io::Error::new(
+                std::io::ErrorKind::InvalidData,
+                "frame is shorter than its header",
+            )));
+        }
         let doff = src.get_u8();
         let ftype = src.get_u8();
         let _ignored = src.get_u16();
